@@ -445,6 +445,19 @@ impl State {
         let all_obs = self.all_observers.borrow();
         if let Some(obs) = all_obs.get(&token.observer_id()) {
             obs.unsubscribe(token).unwrap();
+            return;
+        }
+        drop(all_obs);
+        // An observer that has not been through a stabilise yet is not in all_observers;
+        // its subscriptions must be removable too, or the handler runs anyway.
+        let found = self
+            .new_observers
+            .borrow()
+            .iter()
+            .filter_map(|weak| weak.upgrade())
+            .find(|obs| obs.id() == token.observer_id());
+        if let Some(obs) = found {
+            obs.unsubscribe(token).unwrap();
         }
     }
 
